@@ -349,6 +349,31 @@ func inferFunc(pkg *Package, fn *internal.Elem, sig *types.Signature, targs []ty
 	if err != nil {
 		return nil, nil, err
 	}
+	return inferFuncWith(pkg, fn, sig, targs, params, args)
+}
+
+// inferFuncAs infers the type arguments of the generic function type sig (seeded with targs) when a value of
+// it is used where the function type want is expected: parameters and results of the two are matched pairwise.
+func inferFuncAs(pkg *Package, fn *internal.Elem, sig *types.Signature, targs []types.Type, want *types.Signature) ([]types.Type, types.Type, error) {
+	np, nr := sig.Params().Len(), sig.Results().Len()
+	if np != want.Params().Len() || nr != want.Results().Len() || sig.Variadic() != want.Variadic() {
+		return nil, nil, fmt.Errorf("cannot use %s (type %v) as type %v", exprString(fn.Val), sig, want)
+	}
+	vars := make([]*types.Var, 0, np+nr)
+	args := make([]*Element, 0, np+nr)
+	for i := 0; i < np; i++ {
+		vars = append(vars, sig.Params().At(i))
+		args = append(args, &internal.Elem{Val: ident(want.Params().At(i).Name()), Type: want.Params().At(i).Type()})
+	}
+	for i := 0; i < nr; i++ {
+		vars = append(vars, sig.Results().At(i))
+		args = append(args, &internal.Elem{Val: ident(want.Results().At(i).Name()), Type: want.Results().At(i).Type()})
+	}
+	return inferFuncWith(pkg, fn, sig, targs, types.NewTuple(vars...), args)
+}
+
+func inferFuncWith(pkg *Package, fn *internal.Elem, sig *types.Signature, targs []types.Type, params *types.Tuple, args []*Element) ([]types.Type, types.Type, error) {
+	var err error
 	tp := sig.TypeParams()
 	n := tp.Len()
 	tparams := make([]*types.TypeParam, n)
